@@ -325,7 +325,7 @@ const NAMES : &[&str] = &["a", "b", "c", "d", "e"];
 
 /*  Rule k has target(s) named after NAMES[perm[k]]; an edge k->j adds a target of rule j to rule k's sources;
     `binding` picks which target of a two-target rule each edge uses. */
-fn build_rules(n : usize, matrix : u32, two_targets : bool, binding : u64) -> Vec<Rule>
+fn build_rules(n : usize, matrix : u32, two_targets : bool, binding : u64, reversed_lists : bool) -> Vec<Rule>
 {
     let mut rules = vec![];
     let mut edge : u32 = 0;
@@ -352,6 +352,14 @@ fn build_rules(n : usize, matrix : u32, two_targets : bool, binding : u64) -> Ve
         }
         if sources.len() == 0 { sources.push(format!("leaf{}", k)); }
         sources.sort();
+        let mut targets = targets;
+        if reversed_lists
+        {
+            // the parser's canonical order is the bundle's depth-first order, which is not always plain string order;
+            // the sorter must cope with lists that are not sorted
+            targets.reverse();
+            sources.reverse();
+        }
         rules.push(Rule::new(targets, sources, vec![format!("cmd{}", k)]));
     }
     rules
@@ -375,11 +383,11 @@ fn exhaustive(ctx : &mut Ctx, n : usize, two_targets : bool, rng : &mut Rng)
             else { vec![rng.next_u64() % 3u64.pow(edges), rng.next_u64() % 3u64.pow(edges)] };
         for binding in bindings.iter()
         {
-            let rules = build_rules(n, matrix, two_targets, *binding);
+            let rules = build_rules(n, matrix, two_targets, *binding, two_targets && (binding + m) % 2 == 1);
             run_one(ctx, &rules, None, true, rng);
             for k in 0..n
             {
-                let goal = rules[k].targets[rules[k].targets.len() - 1].clone();
+                let goal = rules[k].targets.iter().max().unwrap().clone();
                 run_one(ctx, &rules, Some(&goal), n <= 4 && k == 0, rng);
             }
             if m % 97 == 0 { run_one(ctx, &rules, Some("nosuch"), false, rng); }
@@ -436,6 +444,10 @@ fn random_rules(rng : &mut Rng) -> (Vec<Rule>, Option<String>)
             let t = used_targets[rng.below(used_targets.len())].clone();
             if !rules[i].sources.contains(&t) { rules[i].sources.push(t); rules[i].sources.sort(); }
         }
+    }
+    if rng.chance(1, 2)
+    {
+        for r in rules.iter_mut() { rng.shuffle(&mut r.targets); rng.shuffle(&mut r.sources); }
     }
     rng.shuffle(&mut rules);
     let goal = if rng.chance(1, 2) { Some(used_targets[rng.below(used_targets.len())].clone()) } else if rng.chance(1, 10) { Some("absent".to_string()) } else { None };
